@@ -199,7 +199,9 @@ def run(ctx):
             got = back["select"]["value"] if st2 == "ok" and isinstance(back, dict) else None
             if st == "ok" and st2 == "ok" and type(got) is type(v) and got == v:
                 continue
-            if isinstance(v, float) and "e" in repr(v) and "C06:float-repr-exponent" in known:
+            # the listed finding covers exactly the reprs the number grammar reads differently: a negative exponent, or a mantissa without a dot
+            # (1e+16 is read as an integer); a repr like 1.5e+17 parses back exactly and is NOT excused
+            if isinstance(v, float) and "e" in repr(v) and ("e-" in repr(v) or "." not in repr(v).split("e")[0]) and "C06:float-repr-exponent" in known:
                 ctx.known("C06:float-repr-exponent", "%s e.g. %s" % (known["C06:float-repr-exponent"]["what"], known["C06:float-repr-exponent"]["witness"]))
                 continue
             ctx.violation("input", dict(tree={"select": {"value": v}}, formatted=txt if st == "ok" else None, reparsed=short(back, 300), requires="%s %r" % (type(v).__name__, v)))
